@@ -54,3 +54,13 @@ Proof.
   intros t d H. now rewrite (bundled_result_of_period E t d H).
 Qed.
 Print Assumptions C13_code_one_result_per_period.
+
+(* ---- the regenerated panel construction (Gen/PanelGen.v) IS the model the theorems above are about - *)
+From LCM Require Import Gen.PanelGen Proofs.C13_PanelGen.
+Theorem C13_code_panel_construction_is_the_model : forall results n_periods n_initial_states,
+  gen_process_simulated_data results = process_simulated_data results /\
+  (0 < n_periods -> gen_panel_index (n_periods * n_initial_states) n_periods = panel_index n_periods n_initial_states).
+Proof.
+  intros. split; [apply gen_process_simulated_data_is_model|apply gen_panel_index_is_model].
+Qed.
+Print Assumptions C13_code_panel_construction_is_the_model.
